@@ -575,3 +575,21 @@ def c18(ctx):
             "every sequence observes a handle after a later mutation of the store")
     return det_run(ctx, "reg", "TestC18", "c18.ndjson", "c18.summary.json", "SnapshotTrace", "SnapshotTrace.cfg",
                    {"VERIF_SEQUENCES": 40 if quick else 2000}, [], rule, "returned values are private snapshots", tags_of=c18_tags)
+
+
+@register("C19")
+def c19(ctx):
+    quick = ctx.tier == "quick"
+    ctx.assumptions += ["eviction is not part of the sequences (its victim is not determined by the statement); LRU on one DMap is covered by C10"]
+    rule = ("operation paths exported by TLC from Isolation.tla (DMaps {ab, a} x keys {c, bc}: every distinct state within %d operations) plus seeded random sequences "
+            "with Incr, GetPut, Lock/Unlock, Expire and Destroy through an embedded client, a cluster client or raw RESP; clusters N in 1..3, R in 1..2; after every "
+            "operation both DMaps are read completely (every key through a random client path, a full scan, every member's primary and backup fragments); "
+            "non-trivial = the sequence touches both DMaps") % (3 if quick else 4)
+    r = vlib.design_check(ctx, "Isolation", "Isolation.cfg", consts={"Export": "TRUE", "MaxOps": 3 if quick else 4}, name="isolation-design")
+    behs = sorted(set(vlib.behaviours(r)))
+    out = ctx.dir("drv")
+    behfile = os.path.join(out, "beh.jsonl")
+    open(behfile, "w").write("\n".join(behs) + "\n")
+    return det_run(ctx, "reg", "TestC19", "c19.ndjson", "c19.summary.json", "IsolationTrace", "IsolationTrace.cfg",
+                   {"VERIF_BEH": behfile, "VERIF_C19_RANDOM": 30 if quick else 800, "VERIF_OUT": out}, [], rule, "DMap isolation and Destroy",
+                   tags_of=lambda head, evs, line, msg: {"msg": msg})
